@@ -2,41 +2,58 @@
 """py2lean: translate a whitelisted set of pure tracklib functions from /repo's CURRENT source into Lean 4
 definitions (lean/TracklibVerif/Gen/*.lean), regenerated on every run.
 
-    tools/py2lean.py [--repo /repo] [--out DIR] [--print]
+    tools/py2lean.py [--repo /repo] [--out DIR] [--print]          (self-test: tools/py2lean_selftest.py)
 
 The generated definitions are tied to the hand-written models by equality theorems in
 lean/TracklibVerif/Tie/Cnn.lean; when a translated function changes, the generated Lean changes and the
-committed equality proof no longer compiles (the engine then reports the broken tie).
+committed equality proof no longer compiles (the engine then reports the broken tie and searches for an input).
+A file is rewritten only when its content changes. Exit code 0 unless the tool itself is broken.
 
-WHAT IS TRANSLATED.  One Python function (module level, or a method of a class: "Class.method") -> one Lean
+WHAT IS TRANSLATED.  One Python function (module level, or "Class.method") -> one Lean
 `def NAME ... : Py.M τ` (`Py.M = Except Py.Err`, lean/TracklibVerif/Model/PyPrelude.lean). The map is directed
-by the syntax of the function's `ast`, one rule per node kind, no rule looks at anything but its node, the
-types of its sub-terms and the declared signature (WHITELIST below: type of every parameter, return type,
-optionally the type of a local that is bound to a bare integer literal). ALL semantic choices (what `/`, `==`,
-`math.fabs`, `L[k]` ... mean) are the definitions of PyPrelude.lean; this file only decides WHICH of them a
-node is, from the Python types:  float -> `α`, int -> `Int`, bool -> `Bool`, list[float] -> `List α`,
-tuple[..] -> product, optional[τ] -> `Option τ` (a function with `return None` on some path).
+by the syntax of the function's `ast`: one rule per node kind; a rule looks at its node, the types of its sub-terms
+and the declared signature (WHITELIST below), nothing else; there is no per-function code. ALL semantic choices
+(what `/`, `==`, `math.fabs`, `L[k]` ... mean) are the definitions of PyPrelude.lean; this file only decides WHICH of
+them a node is, from the Python types:  float -> `α` (abstract scalar), int -> `Int`, bool -> `Bool`,
+list[float] -> `List α`, tuple[..] -> product, optional[τ] -> `Option τ` (a function with `return None` on some
+path), object[C] -> the tuple of the attributes of class C in constructor order. Types are only used to choose the
+operation; a wrong choice makes the generated file (or the tie) fail to type-check — it cannot make a tie true.
+
+THE DECLARED SIGNATURE of a function gives: the type of every parameter; the return type; optionally the type
+(int / float) of a local that is bound to a bare integer literal (`xb = 0`); for an object parameter a dict:
+  {"attr": type, "getter()": type, ...}                  only these attributes / argument-less accessors are read;
+                                                          each is ONE Lean parameter `<param>_<attr>`; an accessor is
+                                                          ASSUMED to be a pure getter (it is not translated);
+                                                          "getter()": "object[C]" = one parameter per attribute of C
+  {"__class__": "C", "attr": "float", ...}               an instance of class C of the same file: in addition its
+                                                          methods and `+`/`-` are resolved STATICALLY to C's (translated)
+                                                          methods — assumes the run-time object is not of a subclass
+                                                          overriding them.
 
 ACCEPTED SUBSET (anything else: the function is NOT emitted, the reason is written as a comment in the
-generated file, exit code stays 0, and every tie theorem that mentions it stops compiling):
+generated file, exit code stays 0, and every tie theorem that mentions it stops compiling — never a guess):
 
   statements   x = e | x, y = e (tuple) | x op= e | if/elif/else | return e | return | pass | docstring |
                x.append(e) for a list x created in this function by list() / [] / [..] |
-               print(...) (dropped: its arguments must be translatable-or-opaque and are assumed not to raise)
+               x = C(a, ..) / x = <object-valued call> (LOCAL OBJECT, below) | x.attr = e | x.attr op= e |
+               print(...) (dropped; strings are opaque, below)
   expressions  names, int / float / bool literals, unary - + not, + - * / on floats (int operands converted),
-               + - * // % on ints, ** is not accepted, comparisons (chains of two), and / or / & / | on bools,
-               e1 if c else e2, L[k] (k a literal >= 0) on a list or a tuple, tuples, list displays,
-               math.sqrt/sin/cos/tan/atan/atan2/exp/log (uninterpreted parameters), math.fabs, abs,
-               min/max of two floats, float(x), calls of other whitelisted functions of the same file.
-  NOT accepted loops, comprehensions, attribute access, subscript assignment, try, with, lambda, global, starred
-               arguments, keyword arguments, default values being used, strings (outside print), truthiness of
-               non-bools, a variable that may be unbound, a function that can fall off its end unless its
-               return type is optional.
+               + - * // % on ints, ** and pow(x, y) with a float operand (uninterpreted `pow`), comparisons (chains of
+               two), and / or / & / | on bools, e1 if c else e2, L[k] (k a literal >= 0) on a list or a tuple, tuples,
+               list displays, math.sqrt/sin/cos/tan/atan/atan2/exp/log/floor and math.pi (uninterpreted parameters),
+               math.fabs, abs, min/max of two numbers (one a float), float(x), int(x) (uninterpreted `trunc` on a float),
+               x.is_integer(), declared attributes / accessors of object parameters, attributes of local objects,
+               module constants, calls of other whitelisted functions / methods of the same file.
+  NOT accepted loops, comprehensions, recursion, subscripts that are not literals, subscript assignment, try, with,
+               lambda, global, starred / keyword arguments, omitted (defaulted) arguments, truthiness of non-bools,
+               a name that may be unbound, a function that can fall off its end unless its return type is optional,
+               an object used as a plain value (alias, argument of an untranslated call), stores into a parameter.
 
 TRANSLATION RULES (⟦·⟧ on statement lists gives a term of type `Py.M τ`):
   ⟦return e ; _⟧            = B(e, v => .ok v)                (statements after a return are unreachable)
-  ⟦x = e ; rest⟧            = B(e, v => let x := v; ⟦rest⟧)
-  ⟦if c: A else: B ; rest⟧  = B(c, v => if v then ⟦A ; rest⟧ else ⟦B ; rest⟧)      (rest is duplicated)
+  ⟦x = e ; rest⟧            = B(e, v => let x := v; ⟦rest⟧)       (re-assignment = shadowing)
+  ⟦if c: A else: B ; rest⟧  = B(c, v => if v then ⟦A ; rest⟧ else ⟦B ; rest⟧)      (rest is duplicated; each path
+                              has its own environment: a name not bound on the path is refused, not guessed)
   ⟦[]⟧                      = .ok none   if the return type is optional, otherwise not accepted
   B(e, k) evaluates e: every sub-expression that can raise (float `/`, int `//` `%` by a non-literal, `L[k]`, a
   call of a translated function) is bound to a fresh name `py_tN` with `Py.bind`, in Python's evaluation
@@ -45,11 +62,15 @@ TRANSLATION RULES (⟦·⟧ on statement lists gives a term of type `Py.M τ`):
   bound as one conditional (`if a then ⟦b⟧ else .ok false`), so nothing is evaluated that Python would skip.
   `/`, `//`, `%` by a non-zero numeric LITERAL (or a module constant defined as one) cannot raise and are
   rendered as the plain operation.
-  A name that is neither a parameter nor assigned in the function is a MODULE CONSTANT if it is bound exactly once at
-  module level, never declared `global`, and its defining expression is literal arithmetic: that expression is inlined.
-  `x = C(a, b, c)` for a class C of the same file whose `__init__` is exactly `self.p = p` for each parameter (checked)
-  creates a LOCAL OBJECT: one Lean variable per attribute (`x_p`); `x.p = e`, `x.p op= e`, `x.p` and `return x` (the
-  tuple of the attributes in constructor order) are accepted, any other use of `x` (alias, argument) is refused.
+  MODULE CONSTANT: a name that is neither a parameter nor assigned in the function, bound exactly once at module level,
+  never declared `global`, whose defining expression is literal arithmetic: that expression is inlined (a rebinding of
+  the module attribute from outside the file at run time is not seen).
+  LOCAL OBJECT: `x = C(a, b, c)` for a class C of the same file whose `__init__` is exactly `self.p = p` for each
+  parameter (checked on the current source), or `x = <call returning object[C]>`: one Lean variable per attribute
+  (`x_p`); `x.p = e`, `x.p op= e`, `x.p`, `x.method()` (C.method translated, called with x's attributes) and `return x`
+  are accepted; any other use of `x` (alias, argument of an untranslated call) is refused, so no alias can exist.
+  STRINGS: `"…"`, `"…".format(…)`, `str(…)`, `+` of strings have the opaque type S; an S can only be bound to a local
+  or passed to print; nothing is rendered for them and their sub-expressions are ASSUMED not to raise.
 """
 import argparse
 import ast
